@@ -19,6 +19,8 @@ import YashModel.Alias.Origins
 import YashModel.Alias.Builtins
 import YashModel.Alias.TableLemmas
 import YashModel.Alias.Sites
+import YashModel.Alias.BlankL
+import YashModel.Quote.Listing
 namespace YashModel.Alias
 
 /-! ## ★ subst_terminates -/
@@ -1046,17 +1048,18 @@ theorem alias_command_defines (T : Table) (w n v : List Char)
       = some { name := String.ofList n, value := v, global := false } ∧
     ∀ m, m ≠ String.ofList n → (applyCmd T ["alias".toList, w]).lookup m = T.lookup m := by
   have h0 : unquote .un "alias".toList = "alias".toList := by decide +kernel
-  have hlo : leadingOption [n ++ '=' :: v] = none := by
-    unfold leadingOption
+  have hhead : (n ++ '=' :: v).head? ≠ some '-' := by
     cases n with
     | nil => simp
-    | cons c t =>
-      have : c ≠ '-' := fun h => hdash (by simp [h])
-      simp [this]
+    | cons c t => simpa using hdash
   have : applyCmd T ["alias".toList, w] = defineAlias T (n ++ '=' :: v) := by
-    unfold applyCmd
-    simp only [List.map_cons, List.map_nil, h0, hw, beq_self_eq_true, ↓reduceIte, hlo, List.foldl_cons,
-      List.foldl_nil]
+    unfold applyCmd runCmd
+    simp only [List.map_cons, List.map_nil, h0, hw, beq_self_eq_true, ↓reduceIte]
+    unfold runAlias
+    rw [parse_operands_first _ _ _ _ hhead]
+    simp only [List.isEmpty_cons, Bool.false_eq_true, ↓reduceIte]
+    rw [foldl_aliasOperand_T]
+    rfl
   rw [this]
   exact alias_defines T n v hn
 
@@ -1069,27 +1072,33 @@ theorem unalias_command_removes (T : Table) (ws : List (List Char))
       = if (ws.map (unquote .un)).contains m.toList then none else T.lookup m := by
   have h0 : unquote .un "unalias".toList = "unalias".toList := by decide +kernel
   have hne : ("unalias".toList == "alias".toList) = false := by decide +kernel
-  have hlo : leadingOption (ws.map (unquote .un)) = none := by
-    unfold leadingOption
-    cases h : ws.map (unquote .un) with
-    | nil => rfl
-    | cons a rest =>
-      have := hfirst a (by rw [h]; rfl)
-      have e : (a.head? == some '-') = false := by simpa using this
-      simp [e]
-  unfold applyCmd
-  simp only [List.map_cons, h0, hne, Bool.false_eq_true, ↓reduceIte, beq_self_eq_true, hlo]
-  exact lookup_filter_not_mem T _ m
+  unfold applyCmd runCmd
+  simp only [List.map_cons, h0, hne, Bool.false_eq_true, ↓reduceIte, beq_self_eq_true]
+  unfold runUnalias
+  cases h : ws.map (unquote .un) with
+  | nil =>
+    have : Args.parseArguments [{ short := some 'a' }] Args.Mode.withExtensions [] = .ok ([], []) := rfl
+    rw [this]
+    simp
+  | cons a rest =>
+    have hh := hfirst a (by rw [h]; rfl)
+    rw [parse_operands_first _ _ _ _ hh]
+    simp only [List.isEmpty_nil, ↓reduceIte, List.isEmpty_cons, Bool.false_eq_true]
+    rw [foldl_unaliasOperand_T]
+    exact lookup_filter_not_mem T _ m
 
 /-- `unalias -a` removes every definition -/
 theorem unalias_all (T : Table) : applyCmd T ["unalias".toList, "-a".toList] = [] := by
   have h1 : ["unalias".toList, "-a".toList].map (unquote .un) = ["unalias".toList, "-a".toList] := by decide +kernel
   have hne : ("unalias".toList == "alias".toList) = false := by decide +kernel
-  have hlo : leadingOption ["-a".toList] = some ("-a".toList, []) := by decide +kernel
-  have h2 : ("-a".toList == "--".toList) = false := by decide +kernel
-  unfold applyCmd
+  have hp : Args.parseArguments [{ short := some 'a' }] Args.Mode.withExtensions ["-a".toList]
+      = .ok ([⟨{ short := some 'a' }, .short 1, none⟩], []) := by rfl
+  unfold applyCmd runCmd
   rw [h1]
-  simp only [hne, Bool.false_eq_true, ↓reduceIte, beq_self_eq_true, hlo, h2, List.isEmpty_nil, Bool.and_self]
+  simp only [hne, Bool.false_eq_true, ↓reduceIte, beq_self_eq_true]
+  unfold runUnalias
+  rw [hp]
+  rfl
 
 /-- non-vacuity: quoting in the operand (`alias 'a b'=\"x y\"` is not generated, but `alias a='x y '` is):
     the hypotheses of `alias_command_defines` hold for a quoted value with a final blank, and the result is
@@ -1391,5 +1400,222 @@ theorem substitution_replaces_whole_word (T : Table) (s s' : MState) (h : step T
 example : substText [⟨"a", "& y".toList, true⟩] "x&a b".toList = "x&& y b".toList := by decide +kernel
 example : ∃ s', step [⟨"a", "& y".toList, true⟩] { rest := plain "a b".toList, pre := plain "&x".toList, st := .cmd0 } = some s' ∧
     s'.subs ≠ 0 ∧ s'.text = "x&& y b".toList := by decide +kernel
+
+/-! ## wave 3, second half: the line machine WITHOUT a certificate — alias tables that change between command lines -/
+
+/-- ★ `line_agree_always`: the model's line machine and the by-hand line machine choose the same alias at EVERY step,
+    whatever `alias` / `unalias` commands are executed between command lines (add, redefine, remove, `-a`: the proof
+    never looks at the tables, only at the fact that both machines use the same one).  The recursion guards agree
+    by `Corr` (chains = names of the regions), the blank rules by the table-free invariant `BlankInvL` of
+    `BlankL.lean` (the `ends_with_blank` flag of every OPEN region, recorded when it was spliced). -/
+theorem line_agree_always (f : Nat) {l : LState} {g : HLState} (hs : LSim l g)
+    (hco : Corr g.h.active l.m.rest) (hb : BlankInvL l.m g.h) : LAgree f l g := by
+  induction f generalizing l g with
+  | zero => trivial
+  | succ f ih =>
+    obtain ⟨E, hE⟩ := hb
+    have hc0 : mcand l.T l.m = hcand l.T g.h := cand_agree hs.2.2 hco (blank_agreeE hs.2.2 hco hE)
+    have hc : mcand l.T l.m = hcand g.T g.h := by rw [hs.1]; exact hc0
+    refine ⟨hc, ?_⟩
+    intro l' g' e1 e2
+    rcases lsim_step hs hc with ⟨n1, _⟩ | ⟨l'', g'', f1, f2, hsim⟩
+    · rw [n1] at e1; cases e1
+    · rw [f1] at e1; rw [f2] at e2; cases e1; cases e2
+      have m1 := lstep_step f1
+      have m2 := hlstep_hstep f2
+      rw [hs.1] at m2
+      exact ih hsim (corr_step hs.2.2 hco hc0 m1 m2) (blankinvE_step hs.2.2 hco hE hc0 m1 m2)
+
+/-- ★ `line_model_eq_spec`: for every initial table, every script and every number of steps — with the alias table
+    changing between command lines — the model's line machine and textual substitution by hand, line by line, end
+    with the same text, the same tokens, the same pending here-documents and the same final table.  No hypothesis:
+    this is `line_model_eq_spec_partial` with `LAgree` discharged. -/
+theorem line_model_eq_spec (T : Table) (line : List Char) (f : Nat) :
+    let l := (lrun f { T := T, m := init line }).1
+    let g := hlrun f { T := T, h := { rest := line } }
+    l.m.text = g.h.out.reverse ++ g.h.rest ∧ l.m.toks = g.h.toks ∧ l.m.hd = g.h.hd ∧
+      l.finalTable = g.finalTable :=
+  line_model_eq_spec_partial T line f
+    (line_agree_always f ⟨rfl, rfl, sim_init line⟩ (corr_init line) (blankinvL_init line))
+
+/-- ★ `line_origins_eq_spec`: … and the origin chain of every character of the model's buffer is the by-hand list of
+    aliases being processed where it was read (no hypothesis). -/
+theorem line_origins_eq_spec (T : Table) (line : List Char) (f : Nat) :
+    (lrun f { T := T, m := init line }).1.m.origins
+      = (hlrunC f { l := { T := T, h := { rest := line } } }).origins :=
+  line_origins_eq_spec_partial T line f
+    (line_agree_always f ⟨rfl, rfl, sim_init line⟩ (corr_init line) (blankinvL_init line))
+
+theorem lagreeB_of_lagree (f : Nat) {l : LState} {g : HLState} (h : LAgree f l g) : lagreeB f l g = true := by
+  induction f generalizing l g with
+  | zero => rfl
+  | succ f ih =>
+    unfold lagreeB
+    simp only [Bool.and_eq_true, decide_eq_true_eq]
+    refine ⟨h.1, ?_⟩
+    cases e1 : lstep l with
+    | none => rfl
+    | some l' =>
+      cases e2 : hlstep g with
+      | none => rfl
+      | some g' => exact ih (h.2 l' g' e1 e2)
+
+/-- the certificate the driver evaluates on every case (`=LAGREE-FAILED` in the Spec column otherwise) can never
+    fail: it is a check of the MODEL against the Spec that is now a theorem; a failure would mean the compiled
+    driver does not run the definitions the theorems are about -/
+theorem line_certificate_always (T : Table) (line : List Char) (f : Nat) :
+    lagreeB f { T := T, m := init line } { T := T, h := { rest := line } } = true :=
+  lagreeB_of_lagree f (line_agree_always f ⟨rfl, rfl, sim_init line⟩ (corr_init line) (blankinvL_init line))
+
+/-- non-vacuity: the table really changes while a blank-ending replacement is being read — `a` (value ending in a
+    blank, two lines) redefines `a` WITHOUT the blank and defines `b`; the rest of the OLD value is still read under
+    the old flag (the `b` after it is replaced through the blank rule although the table now says `a='z'`), and a
+    later `a b` uses the new value (no blank rule) -/
+example : ((lrun 300 { T := [⟨"a", "alias a=z b=B\nx ".toList, false⟩], m := init "a b\na b".toList }).1.m.text)
+    = "alias a=z b=B\nx  B\nz b".toList := by decide +kernel
+example : ((hlrun 300 { T := [⟨"a", "alias a=z b=B\nx ".toList, false⟩], h := { rest := "a b\na b".toList } }).h.out.reverse)
+    = "alias a=z b=B\nx  B\nz b".toList := by decide +kernel
+
+/-- ★ `call_order_is_the_code`: the order and nesting of the token-taking calls (`take_token_raw` / `auto` / `manual` and
+    calls of other token-taking parser functions) of every parser function, as the extractor reads it from
+    yash-syntax/src/parser/*.rs on this run, is the one `trans` was transcribed from (`modelFlows`, 24 functions; compared
+    as a multiset of canonical forms, so renaming or moving a function is silent, while an added / removed / reordered
+    token-taking call or a changed loop / branch nesting breaks this proof and forces a look at `trans`). -/
+theorem call_order_is_the_code :
+    (modelFlows.map (·.2)).Perm YashModel.Generated.AliasTables.takeFlows :=
+  List.isPerm_iff.mp flows_generated
+
+/-- `trans_successors`: the successor function of the automaton, transition by transition, as named beside the entries
+    of `modelFlows` (which token-taking call follows which): array values, `case` (subject, `in`, patterns, `(`, `|`,
+    `)`, `;;`, `esac`), `do`/`done`, groupings, `if`/`while`/`until`, `for` (name, `in`, words, body), separators,
+    redirections (IO_NUMBER, operand → back to where the redirection started), function definitions, simple commands. -/
+theorem trans_successors (lit : Option String) (asg : Bool) :
+    -- array_values
+    (trans .arrOpen (.op "(")).onTake = .arr ∧ (trans .arr (.word lit asg)).onTake = .arr ∧
+    (trans .arr (.op "\n")).onTake = .arr ∧ (trans .arr (.op ")")).onTake = .pre ∧
+    -- case_command
+    (trans .cmd0 (.word (some "case") false)).onTake = .caseSubj ∧ (trans .caseSubj (.word lit asg)).onTake = .caseIn ∧
+    (trans .caseIn (.op "\n")).onTake = .caseIn ∧ (trans .caseIn (.word (some "in") false)).onTake = .casePat0 ∧
+    (trans .casePat0 (.word (some "esac") false)).onTake = .afterComp ∧
+    -- case_item
+    (lit ≠ some "esac" → (trans .casePat0 (.word lit asg)).onTake = .caseSep) ∧
+    (trans .casePat0 (.op "(")).onTake = .casePat1 ∧ (trans .casePat1 (.word lit asg)).onTake = .caseSep ∧
+    (trans .caseSep (.op ")")).onTake = .cmd0 ∧ (trans .caseSep (.op "|")).onTake = .casePatN ∧
+    (trans .casePatN (.word lit asg)).onTake = .caseSep ∧ (trans .args (.op ";;")).onTake = .casePat0 ∧
+    -- do_clause, grouping, subshell, if / while / until
+    (trans .cmd0 (.word (some "do") false)).onTake = .cmd0 ∧ (trans .cmd0 (.word (some "done") false)).onTake = .afterComp ∧
+    (trans .cmd0 (.word (some "{") false)).onTake = .cmd0 ∧ (trans .cmd0 (.word (some "}") false)).onTake = .afterComp ∧
+    (trans .cmd0 (.op "(")).onTake = .cmd0 ∧ (trans .args (.op ")")).onTake = .afterComp ∧
+    (trans .cmd0 (.word (some "if") false)).onTake = .cmd0 ∧ (trans .cmd0 (.word (some "then") false)).onTake = .cmd0 ∧
+    (trans .cmd0 (.word (some "elif") false)).onTake = .cmd0 ∧ (trans .cmd0 (.word (some "else") false)).onTake = .cmd0 ∧
+    (trans .cmd0 (.word (some "fi") false)).onTake = .afterComp ∧
+    (trans .cmd0 (.word (some "while") false)).onTake = .cmd0 ∧ (trans .cmd0 (.word (some "until") false)).onTake = .cmd0 ∧
+    -- for_loop, for_loop_name, for_loop_values, for_loop_body
+    (trans .cmd0 (.word (some "for") false)).onTake = .forName ∧ (trans .forName (.word lit asg)).onTake = .forIn true ∧
+    (trans (.forIn true) (.op ";")).onTake = .forBody ∧ (∀ fl, (trans (.forIn fl) (.op "\n")).onTake = .forIn false) ∧
+    (∀ fl, (trans (.forIn fl) (.word (some "in") false)).onTake = .forWords) ∧
+    (∀ fl, (trans (.forIn fl) (.word (some "do") false)).onTake = .cmd0) ∧
+    (trans .forWords (.word lit asg)).onTake = .forWords ∧ (trans .forWords (.op ";")).onTake = .forBody ∧
+    (trans .forWords (.op "\n")).onTake = .forBody ∧ (trans .forBody (.op "\n")).onTake = .forBody ∧
+    (trans .forBody (.word (some "do") false)).onTake = .cmd0 ∧
+    -- and_or_list, list, pipeline, newline
+    (∀ s, s ∈ ["&&", "||", "|", ";", "&", "\n"] → (trans .args (.op s)).onTake = .cmd0 ∧ (trans .afterComp (.op s)).onTake = .cmd0) ∧
+    (trans .cmd0 (.word (some "!") false)).onTake = .cmd0 ∧
+    -- redirection: IO_NUMBER, operator, operand
+    (trans .cmd0 .io).onTake = .pre ∧ (trans .pre .io).onTake = .pre ∧ (trans .one .io).onTake = .args ∧
+    (trans .args .io).onTake = .args ∧ (trans .afterComp .io).onTake = .afterComp ∧
+    (∀ r, (trans (.redir r) (.word lit asg)).onTake = retState r) ∧
+    (∀ r d, (trans (.redirH r d) (.word lit asg)).onTake = retState r) ∧
+    -- short_function_definition
+    (trans .one (.op "(")).onTake = .fnClose ∧ (trans .fnClose (.op ")")).onTake = .fnBody ∧
+    (trans .fnBody (.op "\n")).onTake = .fnBody ∧
+    -- simple_command
+    (isKeyword lit = false → (trans .cmd0 (.word lit asg)).onTake = (if asg then .pre else .one)) ∧
+    (trans .pre (.word lit asg)).onTake = (if asg then .pre else .args) ∧
+    (trans .one (.word lit asg)).onTake = .args ∧ (trans .args (.word lit asg)).onTake = .args ∧
+    (trans .cmd0 .assignArr).onTake = .arrOpen ∧ (trans .pre .assignArr).onTake = .arrOpen := by
+  refine ⟨by decide, by simp [trans, transCore], by decide, by decide, by decide, by simp [trans, transCore], by decide,
+    by decide, by decide, ?_, by decide, ?_, by decide, by decide, by simp [trans, transCore], by decide,
+    by decide, by decide, by decide, by decide, by decide, by decide, by decide, by decide, by decide, by decide,
+    by decide, by decide, by decide, by decide, by simp [trans, transCore], by decide, ?_, ?_, ?_,
+    by simp [trans, transCore], by decide, by decide, by decide, by decide, ?_, by decide,
+    by decide, by decide, by decide, by decide, by decide, ?_, ?_, by decide, by decide, by decide,
+    ?_, by simp [trans, transCore], by simp [trans, transCore], by simp [trans, transCore], by decide, by decide⟩
+  · intro h; cases lit <;> simp_all [trans, transCore]
+  · cases lit <;> simp [trans, transCore] <;> split <;> rfl
+  · intro fl; cases fl <;> decide
+  · intro fl; cases fl <;> decide
+  · intro fl; cases fl <;> decide
+  · intro s hs; simp only [List.mem_cons, List.not_mem_nil, or_false] at hs
+    rcases hs with rfl | rfl | rfl | rfl | rfl | rfl <;> decide
+  · intro r; simp [trans, transCore]
+  · intro r d; simp [trans, transCore]
+  · intro h; simp [trans, transCore, h]
+
+/-! ## wave 3: the `alias` / `unalias` built-ins themselves — option parsing (C20's `parse_arguments`), exit status,
+    printed form (C07's `quote`) -/
+
+/-- the table part of `runCmd` is `applyCmd` (what the line machine uses), by definition; stated so that the theorems
+    about `applyCmd` are theorems about the built-in that also yields the status and the output -/
+theorem builtin_table (T : Table) (ws : List (List Char)) : (runCmd T ws).T = applyCmd T ws := rfl
+
+/-- composition with C07: the line `alias` prints for a definition is C07's `printAlias` (the form whose re-reading
+    C07 proves: `alias_line_recreates`) -/
+theorem printed_form_is_C07 (a : Alias) :
+    printAliasLine a = YashModel.Quote.Listing.printAlias (a.name.toList, a.value) := by
+  simp [printAliasLine, YashModel.Quote.Listing.printAlias]
+
+/-- `alias name` for a defined name (no `=`, not option-like): prints exactly that definition, exit status 0, table
+    unchanged; for an undefined name: prints nothing, exit status 1, table unchanged -/
+theorem alias_prints_definition (T : Table) (n : List Char) (hn : '=' ∉ n) (hd : n.head? ≠ some '-') :
+    runAlias T [n] =
+      match T.lookup (String.ofList n) with
+      | some a => { T := T, status := 0, out := printAliasLine a }
+      | none => { T := T, status := 1, out := [] } := by
+  unfold runAlias
+  rw [parse_operands_first _ _ _ _ hd]
+  simp only [List.isEmpty_cons, Bool.false_eq_true, ↓reduceIte, List.foldl_cons, List.foldl_nil]
+  unfold aliasOperand
+  simp only [takeWhile_ne_all n hn, beq_self_eq_true, ↓reduceIte]
+  cases T.lookup (String.ofList n) <;> simp
+
+/-- `alias` has no option: an argument `-x…` before the first operand is an error — exit status 2, nothing printed,
+    nothing defined (also `alias -g name=value`, `alias -p`) -/
+theorem alias_option_is_error (T : Table) (c : Char) (t : List Char) (rest : List (List Char)) (hc : c ≠ '-') :
+    runAlias T (('-' :: c :: t) :: rest) = { T := T, status := 2, out := [] } := by
+  unfold runAlias
+  have : Args.parseArguments [] Args.Mode.withExtensions (('-' :: c :: t) :: rest) = .error (.unknownShort c) := by
+    unfold Args.parseArguments Args.optLoop Args.step
+    have h1 : Args.startsWithSingleHyphen ('-' :: c :: t) = true := by simp [Args.startsWithSingleHyphen, hc]
+    simp [h1, Args.shortLoop, Args.findShort, Args.Step.ofShort, Args.finish]
+  rw [this]
+
+/-- `unalias name` for an undefined name: exit status 1, table unchanged; for a defined one: status 0 and the name is gone -/
+theorem unalias_status (T : Table) (n : List Char) (hd : n.head? ≠ some '-') :
+    (runUnalias T [n]).status = (if (T.lookup (String.ofList n)).isSome then 0 else 1) ∧
+    ((T.lookup (String.ofList n)).isNone → (runUnalias T [n]).T = T) := by
+  unfold runUnalias
+  rw [parse_operands_first _ _ _ _ hd]
+  simp only [List.isEmpty_nil, ↓reduceIte, List.isEmpty_cons, Bool.false_eq_true, List.foldl_cons, List.foldl_nil]
+  unfold unaliasOperand
+  cases h : T.lookup (String.ofList n) <;> simp
+
+/-- `unalias` without any argument and `unalias -a name`: exit status 2, nothing removed; `-a` may be repeated or
+    grouped and may be followed by `--` -/
+theorem unalias_argument_errors (T : Table) :
+    runUnalias T [] = { T := T, status := 2 } ∧
+    runUnalias T ["-a".toList, "x".toList] = { T := T, status := 2 } ∧
+    runUnalias T ["-aa".toList] = { T := [] } ∧ runUnalias T ["-a".toList, "-a".toList] = { T := [] } ∧
+    runUnalias T ["-a".toList, "--".toList] = { T := [] } := by
+  refine ⟨rfl, rfl, rfl, rfl, rfl⟩
+
+/-- non-vacuity / examples: mixed operands are processed in order (define, print, error), the status is 1 as soon as one
+    name is unknown, the output needs C07's quoting -/
+example : runCmd [⟨"a", "x y".toList, false⟩, ⟨"b", "it's".toList, true⟩] ["alias".toList, "a".toList, "b".toList, "zz".toList, "c=1".toList, "c".toList]
+    |> fun r => (r.T, r.status, r.out)
+    = ([⟨"c", "1".toList, false⟩, ⟨"a", "x y".toList, false⟩, ⟨"b", "it's".toList, true⟩], 1,
+        "a='x y'\nb=\"it's\"\nc=1\n".toList) := by decide +kernel
+example : (runCmd [⟨"b", "B".toList, false⟩, ⟨"a", "A".toList, false⟩] ["alias".toList]).out = "a=A\nb=B\n".toList := by
+  decide +kernel
 
 end YashModel.Alias
